@@ -87,9 +87,11 @@ def make_block(corek, target, L, order, user, tree, icpos, lagof, horizon, secon
     return Block(alleqs, lags=lags, ics=ics, exos=[('g', '[1., 2., 4., 8., 16., 32.]')], maxtime=horizon, tol='1e-10')
 
 
-def solve(block, red, steady=False):
+def solve(block, red, steady=False, twice=False):
     s = EquationSolver(block.text(), run_equation_reduction=red)
     s.MaxIterations = 2000
+    if red and twice:
+        s.Parser.EquationReduction()      # the (public, idempotent) reduction called once more on the reduced parser
     if steady:
         s.ParameterSolveInitialSteadyState = True
         s.ParameterInitialSteadyStateMaxTime = 60
@@ -98,9 +100,9 @@ def solve(block, red, steady=False):
     return s
 
 
-def compare(block, exact_required, case, steady=False):
+def compare(block, exact_required, case, steady=False, twice=False):
     try:
-        a = solve(block, True, steady)
+        a = solve(block, True, steady, twice)
     except Exception as e:
         ea = e
         a = None
@@ -182,6 +184,15 @@ def run_unit(unit, tier):
             res['violations'].append(v)
         if not res['samples']:
             res['samples'].append({'block': blk.text()})
+        if icpos == 'none' and lagof in ('none', 'aL'):
+            case3 = {'features': dict(feats, twice=True), 'text': blk.text()}
+            dig.add((blk.key(), 'twice'))
+            outcome, v, moved = compare(blk, unit['core'] == 'acyclic', case3, twice=True)
+            res['evaluations'] += 1
+            core.bump(res['outcomes'], unit['core'] + ':reduced-twice:' + outcome)
+            if v:
+                v['key'] = 'reduction-called-twice:' + v['key']
+                res['violations'].append(v)
         # configuration: the optional initial steady-state search in front of the solve (cyclic = stable cores only)
         if unit['core'] == 'cyclic' and icpos in ('none', 'a1') and tree:
             case2 = {'features': dict(feats, steady=True), 'text': blk.text()}
@@ -206,5 +217,5 @@ def run_unit(unit, tier):
 def replay(case):
     f = case['features']
     blk = make_block(f['core'], f['target'], f['L'], f['order'], f['user'], f['tree'], f['icpos'], f['lagof'], f['horizon'], f.get('second', False))
-    o, v, m = compare(blk, f['core'] == 'acyclic' and not f.get('steady'), case, steady=bool(f.get('steady')))
+    o, v, m = compare(blk, f['core'] == 'acyclic' and not f.get('steady'), case, steady=bool(f.get('steady')), twice=bool(f.get('twice')))
     return [v] if v else []
